@@ -274,3 +274,36 @@ func VP_C04_ascii85() {
 	}
 	vpCover("done")
 }
+
+// K4b: %%Key: value lines and %%+ continuations are collected in order under every end-of-line convention.
+func VP_C04_dsc() {
+	vpUnwind(1200)
+	eols := []string{"\n", "\r", "\r\n"}
+	eol := func(tag string) string { return eols[vpChoose(tag, 3)] }
+	v := vpBytes("v", 2)
+	for _, b := range v {
+		vpAssume(b > 32 && b < 127 && b != '%')
+	}
+	text := "%!PS" + eol("e0") + "%%Title: " + string(v) + " x" + eol("e1") + "%%+ more" + eol("e2") + "%%Pages: 3" + eol("e3") + "/a 1 def" + eol("e4") + "%%NoValue" + eol("e5") + "%%+ cont" + eol("e6")
+	intp := NewInterpreter()
+	intp.MaxOps = 100
+	err := intp.Execute(&vpReader{data: []byte(text), mode: vpChoose("mode", 2), faultAt: -1, name: "r"})
+	vpAssert("executes", err == nil)
+	want := []Comment{{"Title", string(v) + " x more"}, {"Pages", "3"}, {"NoValue", " cont"}}
+	ok := len(intp.DSC) == len(want)
+	if ok {
+		for i := range want {
+			if intp.DSC[i].Key != want[i].Key {
+				ok = false
+			}
+		}
+	}
+	vpAssert("dsc-keys-in-order", ok)
+	if ok {
+		vpAssert("dsc-title-with-continuation", intp.DSC[0].Value == want[0].Value)
+		vpAssert("dsc-pages", intp.DSC[1].Value == "3")
+	}
+	_, defined := intp.UserDict["a"]
+	vpAssert("program-between-comments-executed", defined)
+	vpCover("done")
+}
